@@ -6,7 +6,7 @@ CONSTANTS
   MaxChanges = 1
   Faithful = TRUE
   ShareIdentical = TRUE
-  CachedDecide = TRUE
+  CachedDecide = FALSE
   AtomicReload = FALSE
 INVARIANTS TypeOK WorkersShare DestsIsolated DefsIsolated RegistryGoals WorkerGoals PeerCountCurrent NeverTainted
 PROPERTIES CacheStable RegistryMonotone
